@@ -65,6 +65,29 @@ def run_vh(args, timeout=1800, cwd=None):
     return p.stdout
 
 
+def run_tlapm(module, deps, wd, timeout=900, threads=4):
+    """Check the proofs of spec/<module>.tla with the TLA+ proof system (copies the module and the
+    modules it extends into a scratch directory).  outcome: proved | failed | unknown | unavailable"""
+    import shutil
+    td = os.path.join(wd, "tlaps-" + module)
+    shutil.rmtree(td, ignore_errors=True)
+    os.makedirs(td)
+    for m in [module] + list(deps):
+        shutil.copy(os.path.join(SPEC, m + ".tla"), td)
+    out = ""
+    try:
+        p = subprocess.run(["timeout", str(timeout), "tlapm", "--threads", str(threads), module + ".tla"], cwd=td,
+                           stdout=subprocess.PIPE, stderr=subprocess.STDOUT, text=True)
+        out = p.stdout
+        m = re.search(r"All (\d+) obligations proved", out)
+        res = dict(outcome="proved" if m else ("failed" if "obligations failed" in out else "unknown"), obligations=int(m.group(1)) if m else 0)
+    except OSError:
+        res = dict(outcome="unavailable", obligations=0)
+    shutil.rmtree(td, ignore_errors=True)
+    res["out"] = out[-1500:]
+    return res
+
+
 DEV_START = re.compile(r'^<<\s*"(DEV|DONE|CASE|INFO)"')
 
 
